@@ -35,6 +35,9 @@ KINDS = {
     "add-after-unmatched-add": ("@@\nvar x expression\n@@\n+import \"{N}\"\n\n-neverThere(x)\n+{n}.G(x)\n\n@@\nvar x expression\n@@\n+import \"{N}\"\n\n-legacy(x)\n+{n}.F(x)\n", []),
     # an earlier change of the run reproduces code in which a parameter has the package's name (trace(url.Host) -> url.Host)
     "delete-after-reproduce": ("@@\nvar y expression\n@@\n-trace(y)\n+y\n\n@@\nvar x expression\n@@\n-import {TS}\n\n-{t}.F(x)\n+builtin(x)\n", ["minus"]),
+    # earlier changes of the run put in the only references to the package; a later one replaces the import and some of them
+    "introduce-then-partial": ("@@\nvar x expression\n@@\n-legacyA(x)\n+{t}.A(x)\n\n@@\nvar x expression\n@@\n-legacyB(x)\n+{t}.B(x)\n\n"
+                               "@@\nvar x expression\n@@\n-import {TS}\n+import \"{N}\"\n\n-{t}.B(x)\n+{n}.B(x)\n", ["minus"]),
     # the same path on two '-' lines, under two names
     "delete-two-names": ("@@\nvar x expression\n@@\n-import {TS}\n-import dup \"{T}\"\n\n-{t}.F(x)\n+builtin(x)\n", ["minus"]),
     "same-name-takeover": ("@@\nvar x expression\n@@\n-import {TS}\n+import {t} \"{N}\"\n\n-{t}.F(x)\n+{t}.F(x, 1)\n", ["minus"]),
@@ -84,6 +87,9 @@ def gen(rng, k):
         if has_target:
             body.append("func keep() { %s.Other() }" % t)
         body_fixed = True
+    elif kind == "introduce-then-partial":
+        body.append("func a() { legacyA(1); legacyB(2); legacyA(3) }")
+        remaining = True           # the references change 1 put in stay
     elif kind in ("add", "add-named", "add-after-unmatched-add", "delete-blank", "delete-dot", "replace-blank"):
         body.append("func a() { legacy(1); legacy(a + b) }")
         if has_target and fform not in ("_", "."):
@@ -165,7 +171,7 @@ def judge(c, o):
     mentioned = set()
     if c["roles"]:
         mentioned.add(c["target"][1])
-    if c["kind"] not in ("delete", "match-only", "metavar-unalias"):
+    if c["kind"] not in ("delete", "match-only", "metavar-unalias", "delete-two-names", "delete-after-reproduce"):
         mentioned.add(c["new"][0])
     if c["kind"] in ("rename", "metavar-unalias"):
         mentioned.add(c["target"][1])
@@ -177,7 +183,7 @@ def judge(c, o):
         if p not in mentioned and I[(n, p)] == 0:
             bad.append(("import %s, which the patch does not mention, was added" % spec(n, p), None))
     # '+' imports
-    if c["kind"] in ("add", "add-unfit-first", "replace", "replace-all-selectors", "metavar-match-add", "add-after-unmatched-add"):
+    if c["kind"] in ("add", "add-unfit-first", "replace", "replace-all-selectors", "metavar-match-add", "add-after-unmatched-add", "introduce-then-partial"):
         if (None, c["new"][0]) not in O:
             bad.append(("the '+' import \"%s\" (unnamed) is missing from the output" % c["new"][0], None))
     if c["kind"] == "add-named" and ("nn", c["new"][0]) not in O:
